@@ -6,6 +6,7 @@ Model: `Rt.dispatchN` (= `dispatch_n_events`: swap in `EventCount(itr+n)`, `disp
 runtime reports), over the calendar-queue model for every `(n,t)`.
 -/
 import Desverif.Props.C11
+import Desverif.Proofs.RtStepAny
 namespace C10
 open Rt
 
@@ -162,6 +163,45 @@ theorem step_stops_at_bound (prog : Prog) (fuel n : Nat) (s : S) :
       rw [hnt, hitr] at h
       simp only [Limit.applies, decide_eq_true_eq] at h
       omega
+
+def demoProg0 : Prog := [[⟨false, 0, 3⟩], [], [], []]
+
+/-- **Stepping is indistinguishable from running from *every* paused state**: after an arbitrary
+    earlier session `cmds0` (external adds, steps, runs, in any interleaving — in particular cuts
+    followed by externally added events followed by further cuts), any further sequence of
+    `dispatch_n_events` / `dispatch_events_until` steps followed by `dispatch_all` produces, on the
+    calendar-queue runtime for every `(n,t)`, exactly the observations of one uninterrupted
+    `dispatch_all` from that paused state, and ends in a runtime that reports the same clock,
+    event count, remaining and scheduled counters. -/
+theorem stepped_eq_run_from_any_pause (n t : Nat) (hn : 1 ≤ n) (ht : 1 ≤ t) (start : Nat)
+    (prog : Prog) (fuel : Nat) (cmds0 steps : List Cmd)
+    (hsteps : ∀ c ∈ steps, c.isStep = true)
+    (hdone : cqES.len (execCmds cqES prog fuel (C02.session n t start .none prog fuel cmds0).1
+      (steps ++ [.runAll])).1.es = 0) :
+    ∃ K, ∀ K', K ≤ K' →
+      (dispatchAll cqES prog K' (C02.session n t start .none prog fuel cmds0).1).2 =
+        allObs (execCmds cqES prog fuel (C02.session n t start .none prog fuel cmds0).1
+          (steps ++ [.runAll])).2 ∧
+      paused cqES (dispatchAll cqES prog K' (C02.session n t start .none prog fuel cmds0).1).1 =
+        paused cqES (execCmds cqES prog fuel (C02.session n t start .none prog fuel cmds0).1
+          (steps ++ [.runAll])).1 := by
+  obtain ⟨_, hrel, _⟩ := C02.runtime_refines_spec n t hn ht start .none prog fuel cmds0
+  have hl : (C02.specSession start .none prog fuel cmds0).1.limit = .none := by
+    unfold C02.specSession
+    rw [execCmds_limit prog fuel cmds0 (build_inv start .none)]
+    rfl
+  exact stepped_eq_run_sim cq_fes_sim prog fuel steps hrel hl hsteps hdone
+
+/-- non-vacuity of `stepped_eq_run_from_any_pause`: a cut, an external add while paused, a second
+    cut inside the resulting tie group, then the rest — the premises hold and both sides agree -/
+example :
+    cqES.len (execCmds cqES demoProg0 50 (C02.session 4 1 0 .none demoProg0 50
+      [.add 0 0, .add 5 1, .stepN 1, .add 3 2]).1 ([.stepN 1, .stepUntil 3] ++ [.runAll])).1.es = 0 ∧
+    (dispatchAll cqES demoProg0 50 (C02.session 4 1 0 .none demoProg0 50
+      [.add 0 0, .add 5 1, .stepN 1, .add 3 2]).1).2 =
+    allObs (execCmds cqES demoProg0 50 (C02.session 4 1 0 .none demoProg0 50
+      [.add 0 0, .add 5 1, .stepN 1, .add 3 2]).1 ([.stepN 1, .stepUntil 3] ++ [.runAll])).2 := by
+  decide
 
 /-- **While paused the runtime reports the time of the last dispatched event, counts the
     undelivered events as remaining**, for every session (steps, external adds, runs). -/
